@@ -105,6 +105,22 @@ def r1_inverse(rep, facts, g, a):
             ok = width == n == 4
             detail = f'writer width {width}{case}, parser `u` takes {n}'
     rep.check(R, 'fallback|\\uXXXX', ok, detail, f'the \\u fallback and the parser disagree: {detail}', loc)
+    # ... and the parser reads exactly that many digits and no more (the writer puts no terminator after the escape)
+    from . import regular as rg
+    for n in (4, 8):
+        try:
+            n1 = rg.NFA()
+            ga = rg.GirAutomata(g, {})
+            f1 = ga.build_fn(n1, P + 'strings::hexescape', consts={'N': n})
+            n2 = rg.NFA()
+            aa = rg.AbnfAutomata(a, {})
+            f2 = aa.build(n2, aa.expr(f'{n}HEXDIG'))
+            w1, w2, _ = rg.compare(n1, f1, n2, f2)
+            rep.check(R, f'parser|hexescape::<{n}>', w1 is None and w2 is None, f'accepts exactly {n}HEXDIG',
+                      f'hexescape::<{n}> ' + (f'accepts {rg.show_word(w1)}' if w1 is not None else f'refuses {rg.show_word(w2)}' if w2 is not None else '') +
+                      f': it does not read exactly {n} hex digits, so `\\u{"X" * n}` followed by a hex digit (as the writer emits for a control character followed by `a`..`f` / `0`..`9`) is not read back', facts.loc(facts.body(P + 'strings::hexescape')))
+        except rg.Incomplete as e:
+            rep.incomplete(R, f'parser|hexescape::<{n}>', str(e))
     # the fallback is only used for bytes < 0x80 (one byte = one scalar): the bytes that break without a short escape
     for ml in (False, True):
         esc, brk = tabs[ml]
